@@ -952,6 +952,7 @@ func (c *CharSet) canonicalize() {
 			c.makeAnything()
 		} else {
 			c.negate = true
+			c.inverted = true
 			c.ranges = []SingleRange{{c.ranges[0].Last + 1, c.ranges[0].Last + 1}}
 			c.categories = []Category{}
 		}
